@@ -545,3 +545,16 @@ def _key_deps(ix, module, expr, va, kw):
         if isinstance(n, ast.Name) and n.id in (va, kw):
             deps.add(n.id)
     return deps
+
+
+def run_thorough(ctx):
+    """Package-wide sweep of the fresh-before-mutate rule (every module under glue/core, glue/utils and the viewers)."""
+    ix = ctx.index
+    R = 'C01.d(iv)+'
+    ctx.describe(R, 'package-wide: in-place array writes only on fresh arrays')
+    mods = sorted(m for m in ix.modules if m.startswith(('glue.core', 'glue.utils', 'glue.viewers', 'glue.plugins'))
+                  and not m.startswith('glue.core.data_factories') and not m.startswith('glue.core.data_exporters'))
+    done = {'glue.core.subset', 'glue.core.joins', 'glue.core.fixed_resolution_buffer', 'glue.core.data',
+            'glue.core.data_derived', 'glue.core.roi'}
+    from . import common as _c
+    _c.check_inplace_fresh(ctx, R, ix, [m for m in mods if m not in done], exceptions={})
